@@ -848,6 +848,9 @@ class Evaluator:
             if name in ('value', 'operator*', 'operator->'):
                 yield st, (known[1] if known is not None and known[0] else ('optval', cur))
                 return
+            if name in ('operator bool',):
+                yield st, (('bool', known[0]) if known is not None else ('hasval', cur))
+                return
             if name == 'reset':
                 self.write(st, recv, ('global', 'nullopt'), n)
                 yield st, ('void',)
